@@ -25,8 +25,8 @@ from ..common import verdict
 from ..runner import Acc, parallel
 from ..values import ZOO, cp, perturb
 
-LEAVES = [None, True, False, 0, 1, -7, 2 ** 70, 0.0, 1.5, "", "a", b"", b"a", M.FIX_UUID, M.FIX_DT,
-          M.FIX_DATE]
+LEAVES = [None, True, False, 0, 1, -7, 2 ** 70, 0.0, 1.5, 2.5e-12, "", "a", b"", b"a", M.FIX_UUID,
+          M.FIX_DT, M.FIX_DATE]
 NONPLAIN = [decimal.Decimal("1.5"), fractions.Fraction(1, 3), complex(1, 2), (1, 2), (), {1, 2},
             frozenset([1]), bytearray(b"ab"), range(3), NAMED["memoryview"],
             uuid.UUID("51c2f442-bf61-11f1-b9da-02fc00000001"), uuid.uuid5(uuid.NAMESPACE_DNS, "x"),
